@@ -308,6 +308,7 @@ def sc_reshare(rng, shape, k):
     shapes = {
         "same": ([0, 1, 2], 2), "add1": ([0, 1, 2, 3], 3), "remove1": ([0, 1], 2), "replace1": ([0, 1, 3], 2),
         "tup": ([0, 1, 2], 3), "add2": ([0, 1, 2, 3, 4], 3),
+        "replacefirst": ([1, 2, 3], 2),     # every remaining member's share index changes (BeaconMembers.tla)
     }
     members, t2 = shapes[shape]
     steps = [{"op": "start", "node": 0, "mode": "start"}, {"op": "start", "node": 1, "mode": "start"}, {"op": "start", "node": 2, "mode": "start"}]
@@ -529,7 +530,7 @@ def scenarios_for(ctx, prop):
             n, t = rng.choice([(4, 3), (5, 3), (5, 4)])
             out.append(sc_synced_then_needed(rng, n, t, k))
     if prop == "C07":
-        shapes = ["same", "add1", "remove1", "replace1", "tup", "add2"]
+        shapes = ["same", "add1", "remove1", "replace1", "tup", "add2", "replacefirst"]
         for k, sh in enumerate(shapes if not q else rng.sample(shapes, 3)):
             out.append(sc_reshare(rng, sh, k))
         out.append(sc_reshare_early(rng, 0))
